@@ -32,9 +32,10 @@ MANIFEST = {
             "itself is C09. (iii) the < 2^23 hypothesis of "
             "observe_strictly_increasing_run is on the ghost version counter (number of effective changes); "
             "observe_strictly_increasing_run_events states it on the events (fewer than 2^23 chg/del events in the run). (iv) "
-            "'eventually' is the "
-            "step-level progress statement under the explicit fairness hypothesis, not a temporal-logic theorem over infinite "
-            "fair schedules. Retransmissions (tag rtx) of a CON written before a deregistration are not cancelled by "
+            "'eventually' is proved as progress: every fair I/O step (fewer than NSTART CONs of the session in flight) tells the "
+            "session's first stale entry the latest state and strictly decreases the number of stale entries "
+            "(fair_step_decreases_stale), ACK / I/O events never add one (quiet_events_never_add_stale); the iteration over an "
+            "infinite fair schedule is not formalised as a temporal-logic theorem. Retransmissions (tag rtx) of a CON written before a deregistration are not cancelled by "
             "coap_delete_observer and are not counted as new notifications. Trusted: Lean kernel (+ propext, Classical.choice, "
             "Quot.sound), T1 extractor, harness/observe.c + sim_core.h, generators, the oracle, the hand transcription M "
             "(checked on the cases run only); SHA-256 cache key assumed injective; resource ids pairwise distinct (IdsNodup).",
@@ -58,7 +59,8 @@ REQUIRED_THEOREMS = ["reregistration_replaces", "observe_strictly_increasing", "
                      "latest_eventually_notified_run", "fair_when_acknowledged", "fair_when_non", "wake_holds_initially",
                      "fair_when_first_stale", "latest_eventually_notified_first_stale", "observe_strictly_increasing_run_init",
                      "no_notification_after_session_loss_run_any", "reachable_invariants_init",
-                     "observe_strictly_increasing_run_events"]
+                     "observe_strictly_increasing_run_events", "staleOf_zero_iff", "quiet_events_never_add_stale",
+                     "fair_step_decreases_stale"]
 RULE = ("event histories (8..90 events + optional fair tail) over 1..3 observable resources (default / NOTIFY_CON / NOTIFY_NON / "
         "NOTIFY_NON_ALWAYS, Observe counter started at 0, mid-range, and just below 2^23 / 2^24 so that it wraps) and 1..4 real "
         "clients: register / re-register (same token, other token same query, other query) / Observe=1 cancel / plain GET with CON "
